@@ -163,7 +163,8 @@ def scan_immutables(prog: Program, spec, tags=()):
                     for o in owners:
                         if o in prog.mro(cls) and t.attr in spec.classes[o].get("owned", ()):
                             fresh = isinstance(val, fresh_makers) or (isinstance(val, ast.Call) and isinstance(val.func, ast.Name)
-                                                                      and val.func.id in ("list", "dict", "set", "defaultdict"))
+                                                                      and val.func.id in ("list", "dict", "set", "defaultdict")) \
+                                or (isinstance(val, ast.Call) and ast.unparse(val.func) == "uuid.uuid4")   # A-UUID: fresh identifier
                             if not fresh:
                                 problems.append(f"{short(q)}:{n.lineno} owned field .{t.attr} is not initialised with a fresh container")
     return ScanResult("scan:immutable-fields", not problems,
